@@ -842,13 +842,8 @@ func (w *simWorld) checkPeerView(p *simPeer, fam wFamily, table map[string][]*ri
 						min = l
 					}
 				}
-				if min == p.maxLen && fam == famV4 {
-					// exactly at the limit: known finding KF3 (worst-case NLRI arithmetic in the packer)
-					if len(byPrefix[prefix]) == 0 {
-						w.violate("C11", "route-at-size-limit-dropped", subj(prefix), fmt.Sprintf("a route whose single-route UPDATE is exactly %d octets (the session maximum) was not advertised", min))
-					}
-					w.probe("route_exactly_at_limit")
-					continue
+				if min > p.maxLen-9 && min <= p.maxLen {
+					w.probe("route_exactly_at_limit") // within the old packer's worst-case slack: must be sent (D35)
 				}
 				if min > p.maxLen {
 					w.probe("oversize_route_for_session")
